@@ -75,6 +75,8 @@ type c08Case struct {
 	// OpCase != 0: the operation names of the policy handed to LoadFilter are written in another letter case. Refusing
 	// them is fine; if the load succeeds they must mean the documented operations.
 	OpCase uint64 `json:"op_case,omitempty"`
+	// Reassembled: the Policy value that is loaded compiled and printed another policy before and was edited in place
+	Reassembled bool `json:"reassembled,omitempty"`
 }
 
 func archOfGOARCH(g string) string {
@@ -211,6 +213,7 @@ func drawC08(t *rapid.T) c08Case {
 	}
 	c.Prior = rapid.IntRange(0, 4).Draw(t, "prior") == 0
 	c.PriorSame = c.Prior && rapid.Bool().Draw(t, "priorSame")
+	c.Reassembled = rapid.IntRange(0, 5).Draw(t, "reassembled") == 0
 	return c
 }
 
@@ -300,7 +303,7 @@ func checkC08(raw json.RawMessage) (ev.Result, error) {
 		o = 1
 	}
 	steps = append(steps,
-		kjob.Step{Op: "load", Thread: 0, Filter: &kjob.FilterSpec{Policy: *toLoad, NNP: c.NNP, Flag: c.Flag, HostArch: true}},
+		kjob.Step{Op: "load", Thread: 0, Filter: &kjob.FilterSpec{Policy: *toLoad, NNP: c.NNP, Flag: c.Flag, HostArch: true, Reassembled: c.Reassembled}},
 		kjob.Step{Op: "allstatus"},
 		kjob.Step{Op: "probe", Thread: 0, Probes: probes},
 		kjob.Step{Op: "probe", Thread: 1, Probes: probes},
@@ -353,6 +356,9 @@ func checkC08(raw json.RawMessage) (ev.Result, error) {
 	}
 	if c.OpCase != 0 {
 		res.Classes = append(res.Classes, "operation-names-in-another-letter-case-accepted")
+	}
+	if c.Reassembled {
+		res.Classes = append(res.Classes, "policy-value-compiled-another-policy-before")
 	}
 	priorSynced := c.Prior && c.PriorSame && tsync // the earlier load was itself synchronised to every thread
 	if c.PriorSame {
